@@ -443,6 +443,15 @@ def run(chk):
             ac = gen.simple_wing_aircraft(N=4, reid=False)
             ac["wings"]["main_wing"]["grid"]["cluster_points"] = [0.41]
             ac["wings"]["main_wing"]["control_surface"].update(root_span=0.01, tip_span=0.8)
+        if it == 1:
+            # connection options that a random draw may miss: a main wing with a lateral offset of its halves and of the whole wing, a tail and a
+            # fin attached at its root (they must not inherit the offset of the halves), an outer panel at its tip, a lifting-line offset on the parent
+            ac = gen.simple_wing_aircraft(N=4, reid=True, sweep=12.0, dihedral=4.0)
+            ac["wings"]["main_wing"]["connect_to"] = {"ID": 0, "dx": 0.3, "dy": 0.25, "dz": -0.1, "y_offset": 0.4}
+            ac["wings"]["main_wing"]["ll_offset"] = 0.06
+            ac["wings"]["outer"] = {"ID": 4, "side": "both", "is_main": True, "connect_to": {"ID": 1, "location": "tip", "dx": -0.05}, "semispan": 1.5,
+                                    "chord": [[0.0, 0.8], [1.0, 0.4]], "sweep": 20.0, "dihedral": 25.0, "airfoil": "af0", "grid": {"N": 3, "reid_corrections": True}}
+            ac["wings"]["h_stab"]["connect_to"]["y_offset"] = 0.15
         try:
             sc = gen.build_scene(MX, {"scene": {"atmosphere": {"rho": 0.0023769}}}, [("a", ac, {"velocity": 50.0}, {})])
         except Exception as e:
